@@ -610,6 +610,14 @@ def specialise(expr, env):
                     return ast.Constant(value=isinstance(n.ops[0], ast.Is))
                 if definitely_not_none(l):
                     return ast.Constant(value=isinstance(n.ops[0], ast.IsNot))
+            # comparison of numeric literals
+            vals = [n.left] + list(n.comparators)
+            if all(isinstance(v, ast.Constant) and isinstance(v.value, (int, float)) and not isinstance(v.value, bool) for v in vals):
+                ops = {ast.Lt: lambda a, b: a < b, ast.LtE: lambda a, b: a <= b, ast.Gt: lambda a, b: a > b, ast.GtE: lambda a, b: a >= b,
+                       ast.Eq: lambda a, b: a == b, ast.NotEq: lambda a, b: a != b}
+                if all(type(o) in ops for o in n.ops):
+                    res = all(ops[type(o)](a.value, b.value) for a, o, b in zip(vals, n.ops, vals[1:]))
+                    return ast.Constant(value=res)
             return n
     return T().visit(copy.deepcopy(expr))
 
